@@ -39,8 +39,21 @@ def _run(cwd, crate, mode, target_dir, extra_env=None, features=None, prepare=No
         return _run_locked(cwd, crate, mode, target_dir, extra_env, features)
 
 
+def _prune_target(target_dir, limit=600):
+    """every analysed copy of the repository (a scratch copy per seeded variant) leaves its own artefacts in the shared target directory:
+    start afresh once it holds more than `limit` of them (we hold the directory's lock; a cold build costs about 15 s)"""
+    deps = os.path.join(target_dir, "debug", "deps")
+    try:
+        if len(os.listdir(deps)) > limit:
+            import shutil
+            shutil.rmtree(target_dir, ignore_errors=True)
+    except OSError:
+        pass
+
+
 def _run_locked(cwd, crate, mode, target_dir, extra_env=None, features=None):
     ensure_driver()
+    _prune_target(target_dir)
     os.makedirs(os.path.join(CACHE, "facts"), exist_ok=True)
     out = os.path.join(CACHE, "facts", "mir_%s_%s_%d.json" % (mode, crate, os.getpid()))
     if os.path.exists(out):
